@@ -396,7 +396,7 @@ fn sweep_long_histories(cyc: &Cycle, rec: &Recorder) -> Tally {
 fn sweep_edits(cyc: &Cycle, rec: &Recorder, two_edit_shortest: usize) -> Tally {
     let modes = [Mode::Settings, Mode::FooterV2, Mode::FooterV3];
     let core = core_sentences();
-    let alphabet: Vec<u8> = b"A<>+-0159:,/.JMa _\0".to_vec();
+    let alphabet: Vec<u8> = b"A<>+-0159:,/.JMa _\0\n\r\t\x0b\x0c\x7f\x80".to_vec();
     let one_edits = |s: &[u8]| -> Vec<Vec<u8>> {
         let mut v = vec![];
         for i in 0..s.len() {
